@@ -4,7 +4,7 @@ import importlib, sockunits
 importlib.reload(sockunits)
 from sockunits import S, EM, W
 LEVEL = "proof"
-UNITS = [sockunits.ERRMAP, sockunits.IO_WAIT, sockunits.SEND, sockunits.RECV, sockunits.SENDTO, sockunits.RECVFROM, sockunits.CCR, sockunits.CONNECT, sockunits.ACCEPT,
+UNITS = [sockunits.ERRMAP, sockunits.IO_WAIT, sockunits.SEND, sockunits.RECV, sockunits.SENDTO, sockunits.RECVFROM, sockunits.CCR, sockunits.SYS_CLOSE, sockunits.CONNECT, sockunits.ACCEPT,
     S("new", "h_new", "p_socket_new", [EM], canaries=4, cbmc_flags=["--object-bits", "10"]),
     S("close", "h_close", "p_socket_close", [EM], canaries=3),
     S("bind", "h_bind", "p_socket_bind", [EM], canaries=3),
